@@ -167,7 +167,8 @@ prop('C14', level='other', design_ref='DESIGN.md section 6 (C14)',
                'request': {'mode': 'c14-kf', 'rounds': 8}, 'expect_kf': 'KF-C14-1',
                'what': 'probe of the listed known finding: compaction completed, killed before set_flush_count, one-entry rows',
                'bound': '8 scenarios'}],
-     not_decided=['_compact_hashX / _compact_prefix / _compact_history row re-chunking not under deductive contract'],
+     not_decided=['_compact_hashX (re-chunking of one script hash into fixed-size rows) is not under deductive contract: its preconditions '
+                  '(what a correct grouping hands to it) are proved in _compact_prefix, its effect is the bounded stand-in'],
      assumptions=[])
 
 _IDX_NOTE = ('Trusted: T-LDB, T-FILE, T-STRUCT, T-BISECT. The whole-index statement (induction over advance_block / flush_dbs / '
@@ -194,7 +195,8 @@ prop('C03', level='other', design_ref='DESIGN.md section 6 (C03)',
      bounded=[{'obligation': 'index.c03.bounded', 'driver': 'index_scenario.py', 'request': {'mode': 'c03', 'rounds': 10},
                'what': 'after 1-3 reorgs of depth 1-3 (forced/natural, back to back) every observable equals a fresh index; every script hash changed by an undone block is in the touched set',
                'bound': '10 (thorough: 60) generated chains of 6-13 blocks x random flush schedules'}],
-     not_decided=['backup_block and History.backup (content of the rollback) are not under deductive contract; the commit order of '
+     not_decided=['backup_block and History.backup (content of the rollback) are not under deductive contract; the fork-point search '
+                  '(_calc_reorg_range, _reorg_hashes), reorg_chain (labelling and order of the undone blocks), the commit order of '
                   'flush_backup, backup_fs and MerkleCache.truncate are'], assumptions=[])
 prop('C04', level='other', design_ref='DESIGN.md section 6 (C04)',
      technique='deductive verification of the commit discipline components (History.flush fresh ids, clear_excess scrubbing; VCs '
@@ -272,7 +274,9 @@ prop('C07', level='other', design_ref='DESIGN.md section 6 (C07)',
      technique='deductive verification of the per-component obligations of the notification path (VCs from real source, z3); the '
                'composition over all interleavings is written in DESIGN.md, not machine-checked',
      text='Notifications (C20), _notify_sessions (C10), _notify_inner, on_caught_up, subscription_address_status are under contract: '
-          'no hand-over lost, block queryable before it is reported, every touched subscribed script hash notified.',
+          'no hand-over lost, block queryable before it is reported, every connected session handed the notification, every '
+          'touched subscribed script hash notified, every tracked untouched one re-computed on a height change and notified if its '
+          'status changed, the mempool-status map tracking exactly the script hashes with mempool transactions.',
      note='Components only; convergence over all interleavings of five tasks is not decided by contracts.',
      bounded=[{'obligation': 'session.notify.bounded', 'driver': 'notify_native.py', 'request': {'rounds': 300},
                'what': 'real ElectrumX sessions (1-3, sharing one touched set per notification as _notify_sessions does) against a '
